@@ -341,11 +341,20 @@ AddVote(x, kind, h, r, upd, prevVers) ==
                 [] fv.slot = "C" -> x2
 
 \* future rounds/heights [Mirror.handleFuture*Proofs + Kernel.addFuture*]
-FutureKeysKnown(x, msg) == msg.h = x.k.V.h \/ msg.pkh \in x.st.vals
+\* (the unrepaired kernel panicked here: "TODO: handle addFuture* when the view has changed from future"; repaired,
+\*  see known_findings.json -> fixed)
+AddFutureRace(x, status) == IF status = "Found" THEN [x EXCEPT !.res = "Conflict"]      \* the caller looks up again
+                            ELSE [x EXCEPT !.res = "RoundTooOld"]                       \* AddVoteOutOfDate
 
-HandleFutureVote(x, kind, msg) ==
-  LET v == IF msg.h = x.k.V.h THEN x.k.V.vs ELSE msg.pkh   \* key set used to verify
-  IN IF ~FutureKeysKnown(x, msg) THEN [x EXCEPT !.res = "FutureUnverified"]
+\* futVS: the voting height's key set when the kernel's lookup answer carried it (a future ROUND of the voting height
+\* at the time of the lookup), "none" otherwise (a future height: keys by the hash the message names, from the store)
+FutureKeysKnown(x, msg, futVS) == futVS # "none" \/ msg.pkh \in x.st.vals
+
+\* AddFutureRace: what the kernel answers when the round stopped being a future round between the caller's lookup and its
+\* add request (another caller's votes moved the voting round or committed the height in between)
+HandleFutureVote(x, kind, msg, futVS) ==
+  LET v == IF futVS # "none" THEN futVS ELSE msg.pkh   \* key set used to verify
+  IN IF ~FutureKeysKnown(x, msg, futVS) THEN [x EXCEPT !.res = "FutureUnverified"]
      ELSE
       LET n == NPos(v)
           rec == RoundOf(x.st, msg.h, msg.r)
@@ -367,9 +376,12 @@ HandleFutureVote(x, kind, msg) ==
       IN IF storedKH # "none" /\ storedKH # msg.pkh THEN [x EXCEPT !.res = "BadPubKeyHash"]
          ELSE IF bad THEN [x EXCEPT !.res = "BadSignature"]
          ELSE IF ~increased THEN [x EXCEPT !.res = "NoNewSignatures"]
-         ELSE LET rec2 == IF kind = "prevote" THEN [rec EXCEPT !.pv = merged, !.pvKH = msg.pkh]
-                                              ELSE [rec EXCEPT !.pc = merged, !.pcKH = msg.pkh]
-              IN W([x EXCEPT !.res = "FutureVerified"], PutRound(x.st, msg.h, msg.r, rec2))
+         ELSE \* [Kernel.addFuture*]: the kernel looks the round up again before it touches the store
+              LET again == FindView(x.k, msg.h, msg.r).status IN
+              IF again # "Future" THEN AddFutureRace(x, again)
+              ELSE LET rec2 == IF kind = "prevote" THEN [rec EXCEPT !.pv = merged, !.pvKH = msg.pkh]
+                                                   ELSE [rec EXCEPT !.pc = merged, !.pcKH = msg.pkh]
+                   IN W([x EXCEPT !.res = "FutureVerified"], PutRound(x.st, msg.h, msg.r, rec2))
 
 \* The two phases of Handle{Prevote,Precommit}Proofs.  Phase 1 [ViewLookupRequest]: the kernel copies the view the
 \* message belongs to (Snap).  Phase 2, on the caller's goroutine and then in the kernel [AddPrevote/PrecommitRequest]:
@@ -378,11 +390,12 @@ HandleFutureVote(x, kind, msg) ==
 \* looks up again and retries).  Another caller may run between the two phases (MirrorConcMC.tla).
 Snap(k, msg) ==
   LET fv == FindView(k, msg.h, msg.r)
-  IN [status |-> fv.status, view |-> IF fv.status = "Found" THEN GetView(k, fv.slot) ELSE ZeroView]
+  IN [status |-> fv.status, view |-> IF fv.status = "Found" THEN GetView(k, fv.slot) ELSE ZeroView,
+      futVS |-> IF fv.status = "Future" /\ msg.h = k.V.h THEN k.V.vs ELSE "none"]
 
 HandleVoteSnap(x, kind, msg, snap) ==
   IF snap.status = "PANIC" THEN Panic(x, "TODO: unhandled attempt to find view")
-  ELSE IF snap.status = "Future" THEN HandleFutureVote(x, kind, msg)
+  ELSE IF snap.status = "Future" THEN HandleFutureVote(x, kind, msg, snap.futVS)
   ELSE IF snap.status # "Found" THEN [x EXCEPT !.res = "RoundTooOld"]
   ELSE
       LET view == snap.view
